@@ -8,6 +8,7 @@ from ..core import call_attr, calls_in, const, dotted, is_const, kwarg, norm, sl
 from . import c04
 
 EXPLANATION = [
+    'C05.zero-valid: fields declared `int | None` in the anchored modules are tested for presence with `is None` / `is not None`, never by truthiness, so 0 (sequence number 0, time stamp 0, length 0) is handled like any other value.',
     'C05.acl-fragments: every HCI_AclDataPacket construction site lies in a loop whose stride equals the slice width, bounded by a '
     'buffer length; data_total_length == len(fragment); the continuation marker is set iff offset > 0; each fragment is handed on once.',
     'C05.iso-fragments: fragment_length = min(remaining, max - header); data_total_length = header + fragment; the 4-byte SDU header '
@@ -268,6 +269,12 @@ def l2cap_header(ctx):
         R.bad(rule, 'bumble.l2cap.L2CAP_PDU', 'anchor missing')
         return
     s1, s2 = norm(fb), norm(tb)
+    # the only PDU refused for its size is one shorter than the 4-byte basic header: a PDU of exactly 4 bytes is a
+    # well-formed PDU with an empty payload
+    from ..sym import same_ineq
+    guards = [n for n in walk_local(fb) if isinstance(n, ast.If) and any(isinstance(x, ast.Raise) for x in n.body) and 'len(data)' in norm(n.test)]
+    R.check(len(guards) == 1 and same_ineq(guards[0].test, 'len(data) < 4'), rule, 'bumble.l2cap.L2CAP_PDU.from_bytes | minimum size', 'refuses exactly the inputs shorter than the 4-byte header',
+            f'the size guard is `{norm(guards[0].test) if guards else None}`, not `len(data) < 4`: a PDU with an empty payload (exactly the 4-byte header) is refused and never reaches the L2CAP layer', p.loc(guards[0]) if guards else p.loc(fb))
     R.check("length, l2cap_pdu_cid = struct.unpack_from('<HH', data, 0)" in s1 and 'l2cap_pdu_payload = data[4:4 + length]' in s1 and 'cls(l2cap_pdu_cid, l2cap_pdu_payload)' in s1, rule, 'bumble.l2cap.L2CAP_PDU.from_bytes', '<HH length, cid; payload = data[4:4+length]', 'basic header parse changed', p.loc(fb))
     R.check("header = struct.pack('<HH', length, self.cid)" in s2 and 'length = len(self.payload)' in s2 and 'body = header + self.payload' in s2, rule, 'bumble.l2cap.L2CAP_PDU.to_bytes', '<HH len(payload), cid then payload', 'basic header serialisation changed', p.loc(tb))
 
@@ -345,7 +352,13 @@ def queue_geometry(ctx, rule='C05.queue-geometry'):
     R.check(len(sh) == 1 and g == [['le_acl_data_packet_length == 0 or total_num_le_acl_data_packets == 0']], rule, f'{HOST}.reset | shared pool', 'LE shares the classic queue iff the LE length or count is 0', 'the condition for sharing the classic buffer pool changed', p.loc(fn))
 
 
+def zero_valid_rule(ctx):
+    from ..zero_valid import zero_valid
+    zero_valid(ctx, 'C05.zero-valid', ['bumble.hci', 'bumble.host', 'bumble.l2cap'])
+
+
 RULES = [
+    ('C05.zero-valid', zero_valid_rule),
     ('C05.queue-geometry', queue_geometry),
     ('C05.acl-fragments', acl_fragments),
     ('C05.iso-fragments', iso_fragments),
